@@ -8,6 +8,7 @@
 #include "vrt.hpp"
 
 #include <unifex/inline_scheduler.hpp>
+#include <unifex/just.hpp>
 #include <unifex/inplace_stop_token.hpp>
 #include <unifex/manual_lifetime.hpp>
 #include <unifex/spawn_detached.hpp>
@@ -162,9 +163,19 @@ struct LeafOp final : LeafOpBase {
   using cb_t = typename token_t::template callback_type<Cb>;
   R r; LeafCtl* c;
   manual_lifetime<cb_t> cb; bool cbLive = false, constructing = false, pendingStop = false;
-  LeafOp(R&& r, LeafCtl* c) : r(std::move(r)), c(c) {}
+  volatile unsigned canary = 0xA11CEu;
+  LeafOp(R&& r, LeafCtl* c) : r(std::move(r)), c(c) { EV("OpCreated", c->f, 3, 0, 0); }
   LeafOp(LeafOp&&) = delete;
-  ~LeafOp() { if (cbLive) cb.destruct(); }
+  // the destructor of the spawned operation's state: a schedule point in the middle of it, after which it still uses
+  // its own members (a free of the enclosing block that overtakes the destruction is a touch of freed memory), and an
+  // OpDestroyed event when it is through (the monitor: Free(block) only after OpDestroyed of the operation inside it)
+  ~LeafOp() {
+    if (cbLive) cb.destruct();
+    UNIFEX_VERIF_YIELD("future.h_opdtor");
+    LeafCtl* cc = c;
+    canary = 0xDEADu;
+    EV("OpDestroyed", cc->f, 3, 0, 0);
+  }
   void start() noexcept {
     c->started = true; c->op = this;
     EV("OpStart", c->f, 3, 0, 0);
@@ -235,6 +246,18 @@ struct SV2 {
   scope_t& scope() { return s; }
   auto join() { return s.join(); }
 };
+// a scope whose nest() returns the sender itself: the spawned operation state then directly contains the leaf operation
+// (destroyed by destruct_op()), and the future's operation has no nest receiver around it
+struct IdScope {
+  template <class S>
+  remove_cvref_t<S> nest(S&& snd) noexcept(std::is_nothrow_constructible_v<remove_cvref_t<S>, S>) { return (S&&)snd; }
+};
+struct SId {
+  IdScope s;
+  using scope_t = IdScope;
+  scope_t& scope() { return s; }
+  auto join() { return unifex::just(); }
+};
 struct SV1 {
   v1::async_scope s;
   using scope_t = v1::async_scope;
@@ -270,13 +293,13 @@ struct SFault {
 // ------------------------------------------------------------------ scenarios
 struct Scn {
   int id = 0; std::string kind = "future", scope = "v2", b = "await", leaf = "thread", spawn = "ok";
-  int ch = 0; bool stop = false;
+  int ch = 0; bool stop = false; bool enumerate = true; int capx = 1;
 };
 static Scn parseScn(const json& j) {
   Scn s; s.id = j["id"].get<int>();
   s.kind = j.value("kind", "future"); s.scope = j.value("scope", "v2"); s.b = j.value("b", "await");
   s.leaf = j.value("leaf", "thread"); s.spawn = j.value("spawn", "ok"); s.ch = chIdx(j.value("ch", "value"));
-  s.stop = j.value("stop", false);
+  s.stop = j.value("stop", false); s.enumerate = j.value("enum", true); s.capx = j.value("capx", 1);
   return s;
 }
 
@@ -459,6 +482,7 @@ static void runScn(const Scn& sc, const Drive& drive, Outcome& out) {
     if (sc.scope == "v1") runDetached<SV1>(sc, drive, out); else runDetached<SV2>(sc, drive, out);
   } else if (needFault || sc.scope == "fault") runFuture<SFault>(sc, drive, out);
   else if (sc.scope == "v1") runFuture<SV1>(sc, drive, out);
+  else if (sc.scope == "id") runFuture<SId>(sc, drive, out);
   else runFuture<SV2>(sc, drive, out);
 }
 
@@ -583,6 +607,7 @@ int main(int argc, char** argv) {
     }
     while (si < (long)scns.size() && x < to) {
       const Scn& sc = scns[si];
+      if (!sc.enumerate && !skipFirst) { ++si; continue; }      // guided-only scenario
       bool more = true;
       if (!skipFirst) {
         save();
@@ -603,7 +628,7 @@ int main(int argc, char** argv) {
       }
       skipFirst = false;
       ++x; ++k;
-      more = mode == "dfs" ? (d.advance() && k < cap) : (k < cap);
+      more = mode == "dfs" ? (d.advance() && k < cap * sc.capx) : (k < cap * sc.capx);
       if (!more) { ++si; k = 0; d = vrt::Dfs(); d.bound = bound; }
     }
   }
